@@ -627,6 +627,17 @@ pub fn units(tier: Tier) -> Vec<PrattUnit> {
     v
 }
 
+/// C18's share: the inspector state seen by operator fold callbacks (rendered into every node as `#n`) and the final
+/// state, with operator symbols that share a prefix - an operator attempt that consumed a token and failed must be
+/// undone for the inspector too, also when a later operator of the same round then matches
+pub fn units_state(tier: Tier) -> Vec<PrattUnit> {
+    let q = tier == Tier::Quick;
+    vec![
+        PrattUnit { name: "pratt-state-two-character-symbols".into(), nsym: 3, npow: 2, ks: vec![1, 2], len: if q { 6 } else { 7 }, scale: 0, doubles: true },
+        PrattUnit { name: "pratt-state-upto2-3sym-2pow".into(), nsym: 3, npow: 2, ks: vec![1, 2], len: if q { 5 } else { 6 }, scale: 0, doubles: false },
+    ]
+}
+
 /// C07's share: the spans handed to operator fold callbacks (prefix, postfix, infix; Vec, tuple and boxed
 /// tables) are rendered into every node of the tree that is compared, so a smaller sweep of the same
 /// engine decides "the span of the sub-expression being built".
